@@ -2,7 +2,7 @@
 import os, ctypes, subprocess
 _here = os.path.dirname(os.path.abspath(__file__))
 _verif = os.path.dirname(os.path.dirname(_here))
-_so = os.path.join(_verif, 'build', 'bin', 'xck_crc.so')
+_so = os.path.join(os.environ.get('VERIF_BUILD_ROOT') or os.path.join(_verif, 'build'), 'bin', 'xck_crc.so')
 _lib = None
 def _load():
     global _lib
